@@ -132,16 +132,13 @@ pub struct CrashStats {
     pub events: u64,
 }
 
-pub fn run(tier: &str) -> i32 {
-    let t0 = Instant::now();
-    let mut o = Outcome::new("C02", tier, "fault_enumeration");
-    let q = tier == "quick";
-    let deadline = t0 + Duration::from_secs_f64(if q { 42.0 } else { 1150.0 });
+/// Crash exploration of the plans' programs; folds counts into `o` under `key_prefix` and appends findings.
+pub fn crash_explore(o: &mut Outcome, plans: &[Plan], deadline: Instant, q: bool, conformance_programs: usize, key_prefix: &str) {
     let mut jobs: Vec<(usize, Vec<Op>)> = vec![];
-    let plans = plans(tier);
     let mut props = vec![];
     for (pi, pl) in plans.iter().enumerate() {
         let mut prop = SeqProp::new("C02", pl.cfg.clone(), pl.alpha.clone());
+        prop.c12_ops = false;
         prop.prefix = prefix(pl.prefix);
         let ls = leaves(&prop, pl.depth);
         for l in ls {
@@ -153,7 +150,6 @@ pub fn run(tier: &str) -> i32 {
     let stats = Mutex::new(CrashStats { programs: 0, images: 0, torn: 0, pre_open_images: 0, kill_checks: 0, kill_mismatch: 0, inflight_old: 0, inflight_new: 0, events: 0 });
     let outcomes: Mutex<BTreeSet<u64>> = Mutex::new(BTreeSet::new());
     let samples: Mutex<Vec<serde_json::Value>> = Mutex::new(vec![]);
-    let conformance_programs = if q { 2 } else { 12 };
 
     let (done, timed_out) = par_for(jobs.len(), threads(), deadline, |ji| {
         let (pi, prog) = &jobs[ji];
@@ -307,6 +303,11 @@ pub fn run(tier: &str) -> i32 {
                 }
                 if bad {
                     km += 1;
+                    if std::env::var("FJV_DEBUG").is_ok() {
+                        eprintln!("KILL-MISMATCH program {:?} n={} call={} {} exit={:?}", full.iter().map(|o| o.to_string()).collect::<Vec<_>>(), ev.n, ev.call, ev.path, killed.exit_code);
+                        let _ = std::process::Command::new("cp").args(["-r", killed.root.to_str().unwrap(), "/dev/shm/mm_kill"]).status();
+                        let _ = std::process::Command::new("cp").args(["-r", run.image_dir(ev.img).to_str().unwrap(), "/dev/shm/mm_img"]).status();
+                    }
                 }
             }
         }
@@ -329,42 +330,54 @@ pub fn run(tier: &str) -> i32 {
         }
     });
     let s = stats.into_inner().unwrap();
-    o.cov("evaluations", json!(s.images + s.torn));
-    o.cov("distinct_nontrivial", json!(s.images + s.torn));
-    o.cov("rule", json!("programs = all maximal operation programs of the plan's alphabet up to its depth (enumerated on the real code); each is executed once by a child process under the LD_PRELOAD shim, which copies the database directory before EVERY file-mutating libc call (crash image = what a process killed there leaves); every distinct image taken after the first open returned, plus every byte split of every journal write() and the middle split of every other write(), is recovered by the real code: open must succeed, all keyspaces together must equal the model after `acked` or `acked+1` operations, then overwrites/removes/reopen must behave. Each evaluated image is a distinct directory state."));
-    o.cov("programs", json!(s.programs));
-    o.cov("programs_total", json!(jobs.len()));
-    o.cov("numbered_calls", json!(s.events));
-    o.cov("crash_images_checked", json!(s.images));
-    o.cov("torn_write_images_checked", json!(s.torn));
-    o.cov("images_before_first_open_returned_not_judged", json!(s.pre_open_images));
-    o.cov("recovered_without_inflight_op", json!(s.inflight_old));
-    o.cov("recovered_with_inflight_op", json!(s.inflight_new));
-    o.cov("image_vs_kill_checks", json!(s.kill_checks));
-    o.cov("image_vs_kill_mismatches", json!(s.kill_mismatch));
-    o.cov("distinct_outcomes", json!(outcomes.lock().unwrap().len()));
-    o.cov("plans", json!(plans.iter().map(|p| json!({"name": p.name, "cfg": p.cfg.name(), "prefix": p.prefix, "depth": p.depth})).collect::<Vec<_>>()));
-    o.cov("exhaustive", json!(!timed_out));
+    let kp = key_prefix;
+    o.cov_add("evaluations", s.images + s.torn);
+    o.cov_add("distinct_nontrivial", s.images + s.torn);
+    o.cov(&format!("{kp}programs"), json!(s.programs));
+    o.cov(&format!("{kp}programs_total"), json!(jobs.len()));
+    o.cov(&format!("{kp}numbered_calls"), json!(s.events));
+    o.cov(&format!("{kp}crash_images_checked"), json!(s.images));
+    o.cov(&format!("{kp}torn_write_images_checked"), json!(s.torn));
+    o.cov(&format!("{kp}images_before_first_open_returned_not_judged"), json!(s.pre_open_images));
+    o.cov(&format!("{kp}recovered_without_inflight_op"), json!(s.inflight_old));
+    o.cov(&format!("{kp}recovered_with_inflight_op"), json!(s.inflight_new));
+    o.cov(&format!("{kp}image_vs_kill_checks"), json!(s.kill_checks));
+    o.cov(&format!("{kp}image_vs_kill_mismatches"), json!(s.kill_mismatch));
+    o.cov(&format!("{kp}distinct_recovered_states"), json!(outcomes.lock().unwrap().len()));
+    o.cov(&format!("{kp}plans"), json!(plans.iter().map(|p| json!({"name": p.name, "cfg": p.cfg.name(), "prefix": p.prefix, "depth": p.depth})).collect::<Vec<_>>()));
+    if timed_out {
+        o.cov("exhaustive", json!(false));
+    }
     for sm in samples.into_inner().unwrap() {
         o.sample(sm);
     }
-    o.assumptions = vec![
-        "single-threaded driver (crashes under concurrent writers are not enumerated: the prefix oracle needs a deterministic commit order)".into(),
-        "a process crash does not reorder page-cache writes; power loss is C09's".into(),
-        "lsm-tree's atomic rewrite of `current` renames through a raw syscall the shim cannot see; it is atomic and bracketed by interposed calls".into(),
-    ];
     if s.kill_mismatch > 0 {
         o.machinery_errors.push(format!("image mechanism does not conform to real kills: {} mismatches of {}", s.kill_mismatch, s.kill_checks));
     }
     if timed_out {
-        o.machinery_errors.push(format!("time cap hit after {done}/{} programs", jobs.len()));
+        o.machinery_errors.push(format!("time cap hit after {done}/{} crash programs", jobs.len()));
     }
     if s.inflight_new == 0 || s.inflight_old == 0 {
         o.machinery_errors.push("reachability witness missing: never saw both outcomes of an in-flight operation".into());
     }
     let mut f = findings.into_inner().unwrap();
     f.sort_by_key(|x| (x.sig.clone(), x.program.len(), x.variant["crash_before_call"].as_u64().unwrap_or(0)));
-    o.findings = f;
+    o.findings.extend(f);
+}
+
+pub fn run(tier: &str) -> i32 {
+    let t0 = Instant::now();
+    let mut o = Outcome::new("C02", tier, "fault_enumeration");
+    let q = tier == "quick";
+    let deadline = t0 + Duration::from_secs_f64(if q { 42.0 } else { 1150.0 });
+    o.cov("exhaustive", json!(true));
+    crash_explore(&mut o, &plans(tier), deadline, q, if q { 2 } else { 12 }, "");
+    o.cov("rule", json!("programs = all maximal operation programs of the plan's alphabet up to its depth (enumerated on the real code); each is executed once by a child process under the LD_PRELOAD shim, which copies the database directory before EVERY file-mutating libc call (crash image = what a process killed there leaves); every distinct image taken after the first open returned, plus marker-edge/middle/end splits of every journal write() and the middle split of every other write(), is recovered by the real code: open must succeed, all keyspaces together must equal the model after `acked` or `acked+1` operations, then overwrites/removes/reopen must behave. Each evaluated image is a distinct directory state. (Every byte split of journal appends is enumerated by C03.)"));
+    o.assumptions = vec![
+        "single-threaded driver (crashes under concurrent writers are not enumerated: the prefix oracle needs a deterministic commit order)".into(),
+        "a process crash does not reorder page-cache writes; power loss is C09's".into(),
+        "lsm-tree's atomic rewrite of `current` renames through a raw syscall the shim cannot see; it is atomic and bracketed by interposed calls".into(),
+    ];
     o.wall_s = t0.elapsed().as_secs_f64();
     finish(o)
 }
